@@ -28,6 +28,7 @@ const W_REOPEN_WHILE_HELD: u64 = 32;
 const W_LOCAL_REOPEN_WHILE_HELD: u64 = 64;
 const W_OLD_STREAM_READ_AFTER_REOPEN: u64 = 128;
 const W_BIND_ON_REUSED_ID: u64 = 256;
+const W_CANCELLED_OPEN: u64 = 512;
 
 fn victim_histories() -> (Vec<Vec<Op>>, Vec<Vec<Op>>) {
     let a = vec![
@@ -191,9 +192,15 @@ enum Cyc {
     /// goes out when it comes), then aborts. The peer opens the id again, again with a window of one: the grant it
     /// sends for the NEW stream must reach the new stream's waiting writer (credit is per incarnation)
     PeerOpenGrantedThenAbortReopen,
+    /// endpoint opens (forced id); the application gives the request up (drops the future) while the Connect is
+    /// unanswered; the peer's Acknowledge arrives afterwards: nobody will ever own that stream, so the peer is told
+    /// (Reset) and the id is free again
+    LocalOpenCancelledLateAck,
+    /// the same, but the peer answers the abandoned request with a rejection (Reset): nothing is owed, the id is free
+    LocalOpenCancelledLateReject,
 }
 
-const CYCS: [Cyc; 14] = [
+const CYCS: [Cyc; 16] = [
     Cyc::PeerOpenClean,
     Cyc::PeerOpenLocalAbort,
     Cyc::PeerOpenPeerReset,
@@ -208,6 +215,8 @@ const CYCS: [Cyc; 14] = [
     Cyc::BindOnReusedIdHeldReadsLater,
     Cyc::BindOnReusedIdOldDropped,
     Cyc::PeerOpenGrantedThenAbortReopen,
+    Cyc::LocalOpenCancelledLateAck,
+    Cyc::LocalOpenCancelledLateReject,
 ];
 
 struct B {
@@ -673,6 +682,45 @@ fn exec_b(seq: &[Cyc], render: bool) -> RunOutput {
                     b.settle();
                 }
             }
+            Cyc::LocalOpenCancelledLateAck | Cyc::LocalOpenCancelledLateReject => {
+                b.w.spawn_opener(0, tag, vec![tag], 9, EndPlan::SeqKeep(vec![Op::Park]));
+                let got = b.settle();
+                let ids: Vec<u32> = got.iter().filter_map(|m| if let RMsg::Frame(RFrame::Connect { id, .. }) = m { Some(*id) } else { None }).collect();
+                if ids != [7] {
+                    b.v("reuse.local-id-not-free", format!("cycle {pos} ({c:?}): the generator proposes 7 first and 7 must be free again; Connect ids seen {ids:?} (another id means a slot for 7 is still held)"));
+                } else if pos > 0 {
+                    b.wit |= W_REUSE_LOCAL;
+                }
+                let fid = ids.first().copied().unwrap_or(7);
+                // the application gives up: the future of new_stream_channel is dropped with its Connect unanswered
+                let name = format!("open{tag}.a");
+                if let Some(i) = b.w.sim.tasks.iter().position(|t| t.name == name) {
+                    b.w.sim.cancel_task(i);
+                }
+                let got = b.settle();
+                if !got.is_empty() {
+                    b.v("cancelled-open.frames", format!("cycle {pos} ({c:?}): giving up a pending request puts nothing on the wire by itself (the peer has not answered yet); got {got:?}"));
+                }
+                if matches!(c, Cyc::LocalOpenCancelledLateAck) {
+                    b.raw.send(&RFrame::Acknowledge { id: fid, n: 2 });
+                    let got = b.settle();
+                    if !got.iter().any(|m| matches!(m, RMsg::Frame(RFrame::Reset { id }) if *id == fid)) {
+                        b.v("abort.no-reset", format!("cycle {pos} ({c:?}): the peer acknowledged a request whose requester had gone; the stream nobody owns must be aborted (Reset) so that the peer does not keep it; got {got:?}"));
+                    }
+                    b.wit |= W_CANCELLED_OPEN;
+                } else {
+                    b.raw.send(&RFrame::Reset { id: fid });
+                    let got = b.settle();
+                    if got.iter().any(|m| matches!(m, RMsg::Frame(RFrame::Reset { .. }))) {
+                        b.v("reset.answered-with-reset", format!("cycle {pos} ({c:?}): a Reset is never answered with a Reset; got {got:?}"));
+                    }
+                }
+                // black-box probe right away: the peer may use the id for a stream of its own (quiescent link)
+                let left = b.digest();
+                if !left.is_empty() {
+                    b.v("leak.cancelled-request", format!("cycle {pos} ({c:?}): the abandoned request is settled, nobody holds a stream, yet the flow table holds {left:?}"));
+                }
+            }
             Cyc::LocalOpenClean | Cyc::LocalOpenRejectedOnce | Cyc::LocalOpenAbort => {
                 let plan = match c {
                     Cyc::LocalOpenAbort => EndPlan::SeqKeep(vec![Op::W(2), Op::Drop]),
@@ -842,9 +890,9 @@ pub fn run(args: &Args) -> Report {
         fault: 0,
         total_wall: Duration::from_secs(if thorough { 1500 } else { 100 }),
         max_execs_per_case: 400_000,
-        required_witnesses: W_ABORT_SEEN | W_BYST_DONE | W_REUSE_ACKED | W_REUSE_LOCAL | W_TABLES_EMPTY | W_REOPEN_WHILE_HELD | W_LOCAL_REOPEN_WHILE_HELD | W_OLD_STREAM_READ_AFTER_REOPEN,
+        required_witnesses: W_ABORT_SEEN | W_BYST_DONE | W_REUSE_ACKED | W_REUSE_LOCAL | W_TABLES_EMPTY | W_REOPEN_WHILE_HELD | W_LOCAL_REOPEN_WHILE_HELD | W_OLD_STREAM_READ_AFTER_REOPEN | W_CANCELLED_OPEN,
         adaptive: thorough,
-        witness_names: &[("abort_observed_as_eof", W_ABORT_SEEN), ("all_futures_completed", W_BYST_DONE), ("peer_reopen_of_same_id_acknowledged", W_REUSE_ACKED), ("local_reopen_drew_same_id", W_REUSE_LOCAL), ("flow_tables_empty_at_end", W_TABLES_EMPTY), ("peer_reopened_id_while_old_stream_still_held", W_REOPEN_WHILE_HELD), ("local_request_pending_on_the_id_when_the_old_stream_is_dropped", W_LOCAL_REOPEN_WHILE_HELD), ("old_stream_read_after_the_id_was_reopened", W_OLD_STREAM_READ_AFTER_REOPEN)],
+        witness_names: &[("abort_observed_as_eof", W_ABORT_SEEN), ("all_futures_completed", W_BYST_DONE), ("peer_reopen_of_same_id_acknowledged", W_REUSE_ACKED), ("local_reopen_drew_same_id", W_REUSE_LOCAL), ("flow_tables_empty_at_end", W_TABLES_EMPTY), ("peer_reopened_id_while_old_stream_still_held", W_REOPEN_WHILE_HELD), ("local_request_pending_on_the_id_when_the_old_stream_is_dropped", W_LOCAL_REOPEN_WHILE_HELD), ("old_stream_read_after_the_id_was_reopened", W_OLD_STREAM_READ_AFTER_REOPEN), ("pending_request_given_up_then_acknowledged_by_the_peer", W_CANCELLED_OPEN)],
     };
     rep.rule = "driver A: two real endpoints, a victim stream under every pair of close histories (shutdown?/drop/read orders with data in flight), a bystander stream with traffic both ways and a follow-up stream, all schedules <= k deviations: C05's reference model on the victim, bystander/follow-up must complete with equality, flow tables (hook) empty once nobody holds a stream. driver B: real endpoint + raw peer, every sequence of <= L open/close cycles over 11 variants (clean, local abort, peer reset, finish-first, overrun, locally opened clean/rejected/aborted, peer reset + re-open of the id while the local application still holds the old stream, which it then drops: the new stream must not be touched; the same with a NEW LOCAL REQUEST pending on the id when the old stream is dropped; and the old stream's buffered data read only after the id was re-opened: the dead stream must not speak on the new flow) re-using the SAME flow id at link quiescence: the re-opened id must be acknowledged (slot free, black box), start with fresh credit, empty buffer and no closed flag; the endpoint's scripted generator must draw the same id again".into();
     rep.assumptions = vec![
